@@ -173,6 +173,24 @@ Section FootProofs.
     constructor; simpl; auto; try constructor.
   Qed.
 
+  Definition defined (g : regs) (l : str) : bool :=
+    existsb (fun f => str_eqb l (f_label f)) (g_footnotes g ++ g_autofootnotes g).
+
+  Lemma defined_nameids g l : wf g -> defined g l = mem_str l (g_nameids g).
+  Proof.
+    intros W. unfold defined.
+    destruct (mem_str l (g_nameids g)) eqn:E.
+    - apply mem_str_In in E. apply existsb_exists.
+      apply (Permutation_in _ (Permutation_sym (wf_labels _ W))) in E.
+      apply in_map_iff in E as [f [Hf Hin]]. exists f. split.
+      + apply in_app_or in Hin. apply in_or_app. tauto.
+      + subst l. apply str_eqb_refl.
+    - destruct (existsb _ _) eqn:E2; auto. apply existsb_exists in E2 as [f [Hin Hf]].
+      apply str_eqb_eq in Hf. subst l. apply mem_str_false_notin in E. exfalso. apply E.
+      apply (Permutation_in _ (wf_labels _ W)). apply in_map.
+      apply in_app_or in Hin. apply in_or_app. tauto.
+  Qed.
+
   Lemma refs_of_dappend d k (r : rf) l :
     refs_of (dappend d k r) l = if str_eqb k l then refs_of d l ++ [r] else refs_of d l.
   Proof.
@@ -205,7 +223,8 @@ Section FootProofs.
 
   Lemma wf_def g l b : wf g -> wf (fst (render_footnote_reference g l b)).
   Proof.
-    intros [H1 H2 H3 H4 H5 H6 H7 H8]. unfold Foot.render_footnote_reference.
+    intros W. pose proof (defined_nameids g l W) as Hdef. unfold defined in Hdef.
+    destruct W as [H1 H2 H3 H4 H5 H6 H7 H8]. unfold Foot.render_footnote_reference. rewrite Hdef.
     destruct (mem_str l (g_nameids g)) eqn:E; simpl.
     - constructor; simpl; auto.
     - apply mem_str_false_notin in E.
@@ -276,18 +295,21 @@ Section FootProofs.
     match n with LFoot l => [l] | LBox its => flat_map ltop_foots its | _ => [] end.
   Definition layout_foots (ly : list ltop) : list str := flat_map ltop_foots ly.
 
-  Definition step_ok (g g' : regs) (ds : list (str * N)) (foots : list str) : Prop :=
-    (wf g -> wf g') /\
+  Definition step_res (g g' : regs) (ds : list (str * N)) (foots : list str) : Prop :=
+    wf g' /\
     g_nameids g' = g_nameids g ++ map fst (firsts (g_nameids g) ds) /\
     Permutation (pairs g') (pairs g ++ firsts (g_nameids g) ds) /\
     g_warn g' = g_warn g ++ map WDup (dupls (g_nameids g) ds) /\
     foots = map fst (firsts (g_nameids g) ds).
 
+  Definition step_ok (g g' : regs) (ds : list (str * N)) (foots : list str) : Prop :=
+    wf g -> step_res g g' ds foots.
+
   Lemma step_ok_trans g g1 g2 ds1 ds2 f1 f2 :
     step_ok g g1 ds1 f1 -> step_ok g1 g2 ds2 f2 -> step_ok g g2 (ds1 ++ ds2) (f1 ++ f2).
   Proof.
-    intros [A1 [A2 [A3 [A4 A5]]]] [B1 [B2 [B3 [B4 B5]]]].
-    unfold step_ok. rewrite firsts_app, dupls_app, <- A2.
+    intros HA HB W. destruct (HA W) as [A1 [A2 [A3 [A4 A5]]]]. destruct (HB A1) as [B1 [B2 [B3 [B4 B5]]]].
+    unfold step_res. rewrite firsts_app, dupls_app, <- A2.
     split; [auto|]. split; [|split; [|split]].
     - rewrite B2, A2, map_app, app_assoc. reflexivity.
     - eapply perm_trans; [exact B3|]. rewrite app_assoc.
@@ -318,16 +340,17 @@ Section FootProofs.
   Lemma step_ok_refs g ls : step_ok g (render_refs g ls) [] [].
   Proof.
     destruct (render_refs_same ls g) as [A [B [C D]]].
-    unfold step_ok, pairs. rewrite A, B, C, D. simpl. rewrite !app_nil_r.
-    split; [apply wf_refs|]. auto.
+    intro W. unfold step_res, pairs. rewrite A, B, C, D. simpl. rewrite !app_nil_r.
+    split; [apply wf_refs; exact W|]. auto.
   Qed.
 
   Lemma step_ok_def g l b :
     step_ok g (fst (render_footnote_reference g l b)) [(l, b)]
             (if snd (render_footnote_reference g l b) then [l] else []).
   Proof.
-    unfold step_ok. split; [apply wf_def|].
-    unfold Foot.render_footnote_reference, pairs. simpl.
+    intro W. unfold step_res. split; [apply wf_def; exact W|].
+    pose proof (defined_nameids g l W) as Hdef. unfold defined in Hdef.
+    unfold Foot.render_footnote_reference, pairs. rewrite Hdef. simpl.
     destruct (mem_str l (g_nameids g)) eqn:E; rsimpl.
     - rewrite !app_nil_r. auto.
     - split; [reflexivity|]. split; [|simpl; rewrite app_nil_r; auto]. destruct (negb (isdigit l)).
@@ -353,7 +376,7 @@ Section FootProofs.
     forall g, step_ok g (fst (render_doc g d)) (all_defs d) (layout_foots (snd (render_doc g d))).
   Proof.
     induction d as [|t d IH]; intros Hb g; simpl.
-    - unfold step_ok, pairs. simpl. rewrite !app_nil_r. auto.
+    - intro W. unfold step_res, pairs. simpl. rewrite !app_nil_r. auto.
     - pose proof (Hb t (or_introl eq_refl) g) as Ht.
       destruct (render_blk g t) as [g1 n] eqn:E1. simpl in Ht.
       pose proof (IH (fun b Hin => Hb b (or_intror Hin)) g1) as Hr.
@@ -589,7 +612,7 @@ Section FootProofs.
     fa_g1 : g1 = sort_footnotes false fs g0;
     fa_wf0 : wf g0;
     fa_wf1 : wf g1;
-    fa_step : step_ok regs0 g0 (all_defs d) (layout_foots ly);
+    fa_step : step_res regs0 g0 (all_defs d) (layout_foots ly);
     fa_num : number_footnotes g1 (g_autofootnotes g1) 1 = Ok autos;
     fa_foots : x_foots r = resolve_footnotes g1 ++ autos;
     fa_refs : x_refs r = map (ref_out (resolve_footnotes g1 ++ autos)) (g_allrefs g1) }.
@@ -603,7 +626,8 @@ Section FootProofs.
     intro H. apply run_spec in H. cbv zeta in H. destruct H as [g0 [ly [autos [Hr [Hn Hres]]]]].
     exists g0, (sort_footnotes false fs g0), ly, autos. cbv zeta.
     pose proof (step_ok_doc d regs0) as Hs. rewrite Hr in Hs. simpl in Hs.
-    assert (Hw0 : wf g0) by (destruct Hs as [Hs _]; apply Hs, wf_regs0).
+    specialize (Hs wf_regs0).
+    assert (Hw0 : wf g0) by (destruct Hs as [Hs _]; exact Hs).
     subst r. split; [|split; reflexivity].
     constructor; auto. apply wf_sort. exact Hw0.
   Qed.
@@ -945,7 +969,7 @@ Section FootProofs.
 
   (* a duplicate definition only leaves its warning *)
   Lemma dup_def_only_warns g l b :
-    mem_str l (g_nameids g) = true ->
+    existsb (fun f => str_eqb l (f_label f)) (g_footnotes g ++ g_autofootnotes g) = true ->
     render_footnote_reference g l b =
     ({| g_nameids := g_nameids g; g_autofootnotes := g_autofootnotes g; g_footnotes := g_footnotes g;
         g_autofootnote_refs := g_autofootnote_refs g; g_footnote_refs := g_footnote_refs g;
